@@ -20,6 +20,10 @@ type LossCase struct {
 	Idle     bool   `json:"idle"`      // the loss happens while no operation is in flight
 	WriteNth int    `json:"write_nth"` // kind write: which write of the operation fails (0-based)
 	After    int    `json:"after"`     // further operations after the loss
+	// Stale (idle, eof/err, CLI operations): before the loss the device prints an unsolicited
+	// message and redraws its prompt, so unread bytes holding a prompt sit in the queue when the
+	// loss is noticed.
+	Stale bool `json:"stale,omitempty"`
 }
 
 func genLoss(t *rapid.T) LossCase {
@@ -29,6 +33,7 @@ func genLoss(t *rapid.T) LossCase {
 	c.Idle = rapid.IntRange(0, 5).Draw(t, "idle") == 0
 	c.WriteNth = rapid.IntRange(0, 3).Draw(t, "writeNth")
 	c.After = rapid.IntRange(1, 2).Draw(t, "after")
+	c.Stale = rapid.Bool().Draw(t, "stale")
 
 	return c
 }
@@ -85,10 +90,22 @@ func runLoss(c LossCase) ev.Verdict {
 			s.pipe.WriteFailAfter = 0
 			s.pipe.Release() // and the peer is gone
 		} else {
-			s.pipe.SetFault(kind, 0)
+			stale := 0
+
+			switch c.Op {
+			case "getprompt", "cmd", "cmds", "interactive":
+				if c.Stale {
+					msg := []byte("\r\n%LINK-3-UPDOWN: Interface Gi0/1, changed state to down\r\n" + host + "> ")
+					stale = len(msg)
+					s.pipe.Inject(msg)
+					v.Classes = append(v.Classes, "idle-stale-bytes")
+				}
+			}
+
+			s.pipe.SetFault(kind, stale)
 		}
 
-		time.Sleep(30 * rd)
+		time.Sleep(30*rd + time.Duration(c.ReadDelayNS)*100)
 
 		t0 := time.Now()
 
